@@ -108,5 +108,8 @@ func hashScripts() [][][]string {
 			{"hrandfield", "k1", "2"}, {"hrandfield", "k1"}, {"hlen", "k1"}},
 		// HSET on an existing hash answers the number of fields it names (was: the size of the hash afterwards)
 		{{"hset", "k1", "f1", "v1"}, {"hset", "k1", "f3", ""}, {"hset", "k1", "f1", "x", "f2", "y", "f3", "z"}, {"hset", "k1", "f1", "a", "f1", "b"}, {"hlen", "k1"}},
+		// HINCRBY past the int64 boundary fails and leaves the field (was: the sum wrapped around)
+		{{"hincrby", "k9", "n", "9223372036854775807"}, {"hincrby", "k9", "n", "9223372036854775807"}, {"hget", "k9", "n"}, {"hincrby", "k9", "n", "1"},
+			{"hincrby", "k9", "n", "-9223372036854775808"}, {"hincrby", "k9", "n", "-9223372036854775808"}, {"hincrby", "k9", "n", "-1"}, {"hgetall", "k9"}},
 	}
 }
